@@ -1897,7 +1897,7 @@ def run(ctx):
 
     # ---- inputs: corpus first, then the seeded generator
     corpus = [(k, normalise_input(c)) for k, c in load_corpus()]
-    n_in = ctx.n(60, 800)
+    n_in = ctx.n(60, 1000)
     inputs = list(corpus)
     for i in range(n_in):
         inputs.append(('g%d' % i, gen_input(rng)))
@@ -1927,11 +1927,19 @@ def run(ctx):
     seeds = [(s + 16 * ctx.seed) % 4294967295 for s in seeds]
     nperm = 3 if ctx.quick() else 6
     pool = Pool(ctx)
-    chunk = 250
+    chunk = 200
     n_eval = 0
+    inputs_run = 0
+    import time
     for i in range(0, len(inputs), chunk):
+        # wall-clock guard (thorough must end within 15 min on a loaded machine too): a chunk takes
+        # 2-5 min; no new chunk is started once 8 min have passed.  The corpus is in the first chunk.
+        if i > 0 and time.time() - ctx.t0 > 480:
+            ctx.log('time budget reached: %d of %d generated inputs were run' % (inputs_run, len(inputs)))
+            break
         n_eval += metamorphic(ctx, cnt, pool, inputs[i:i + chunk], seeds, nperm, rng, samples)
-        ctx.log('metamorphic: %d/%d inputs, %d scans compared, %d subprocesses' % (min(i + chunk, len(inputs)), len(inputs), n_eval, pool.spawned))
+        inputs_run = min(i + chunk, len(inputs))
+        ctx.log('metamorphic: %d/%d inputs, %d scans compared, %d subprocesses' % (inputs_run, len(inputs), n_eval, pool.spawned))
     total += n_eval
     # the cold/warm comparison says nothing if the warm runs never got an answer from the cache
     if cnt.counts.get('variant:cache', 0) + cnt.counts.get('variant:xcache', 0) > 0 \
@@ -1967,6 +1975,8 @@ def run(ctx):
         'samples': samples,
         'distribution': cnt.counts,
         'corpus_cases': len(corpus),
+        'inputs_planned': len(inputs),
+        'inputs_run': inputs_run,
         'subprocesses': pool.spawned,
         'hash_seeds': seeds,
         'exhaustive': False,
